@@ -54,6 +54,11 @@ TABLE = {
             'creation (found 8 indeterminate members, 7 demonstrated with perturbed memory); integers become enums only behind a check of that integer; sizes, indices and loop bounds derived from attributes, '
             'text or QDataStream reads are dominated by a bound (16-bit wire lengths bound allocations by type); typed children are not re-captured (fix-point). Zero-expected rules must fire on controls/c02_controls.cpp on every run.',
             'Absence of crashes/UB in general, termination and memory bounds for deeply nested input, and value-level idempotence are not decided (need execution under sanitizers); QObject-derived classes are excluded from R1.', 'DESIGN.md §2 C02'),
+    'C03': ('dataflow from socket reads to byte-to-text decoders in every readyRead slot + must-clear of all receive-state members in the stream-restart slots',
+            'Static: a value derived from readAll()/read() may not reach a stateless decoder (QString::fromUtf8 etc.) except from a member accumulator decoded up to a computed boundary, or through a stateful decoder member; '
+            'all receive-state members (discovered as the text/byte members written by the receive path) are cleared before started() in both restart slots. This is the structural necessary condition that the one '
+            'hand-picked ASCII split of the test-suite cannot probe (found and fixed: per-read stateless UTF-8 decoding).',
+            'That the accumulate/wrap/DOM-parse strategy yields the same event sequence for every partition (regex anchoring, keep-alives, \'>\' in attribute values) is behaviour of QRegularExpression/QDomDocument on runtime strings and is not decided.', 'DESIGN.md §2 C03'),
 }
 
 NOT_APPLICABLE_REASON = 'check not built yet in this session (see DESIGN.md); listed here until qxverif/rules/<id>.py exists'
